@@ -35,6 +35,7 @@ type renderCase struct {
 	Spread     bool            `json:"options_passed_as_slice_then_overwritten,omitempty"`          // Renderer(slice...) and the caller reuses the slice afterwards: the middleware keeps the options it was created with
 	JSONGo     string          `json:"json_go_value,omitempty"`                                     // json: the value is this Go value instead of json_value: nil-slice ([]string(nil)) | nil-map | nil-ptr | empty-slice | nil-in-struct. The body is what the standard encoder writes for it
 	EditCT     bool            `json:"earlier_response_edited_its_content_type_in_place,omitempty"` // an earlier request of the same kind on the same instance appended to element 0 of its own Content-Type header value (in place, through the header map)
+	LargeFirst int             `json:"earlier_big_document_bytes,omitempty"`                        // >0: the same instance (same Renderer) first answers another request with a JSON (even) or XML (odd) document of about this many bytes; this response is what it would be without that
 	FailFirst  string          `json:"earlier_render_failed,omitempty"`                             // an earlier request (same instance, or another instance of the process) rendered a value that cannot be encoded: xml-late (fails after several KiB of output) | json (fails at once). Nothing of it may reach this response
 	Query      string          `json:"raw_query,omitempty"`                                         // the request's query string: nothing in it is an argument of the render
 	CtxDone    bool            `json:"request_context_done_before_rendering,omitempty"`             // the rendering handler cancels the request's context first (a time-limit pattern that reports 504 through the renderer): the render is still sent
@@ -200,6 +201,10 @@ func genRenderCase(rng *rand.Rand) *renderCase {
 			b = []byte(renderStrings[rng.Intn(len(renderStrings))])
 		}
 		c.Bytes = core.B(b)
+	}
+	if rng.Intn(12) == 0 && !c.Overlap {
+		// drawn last: an earlier big document from the same Renderer
+		c.LargeFirst = []int{16383, 16384, 16385, 20000, 65536, 65537, 100000, 1 << 20}[rng.Intn(8)]
 	}
 	return c
 }
@@ -463,6 +468,22 @@ func judgeRender(w *core.W, c *renderCase) {
 			}
 			return
 		}
+		if req.Header.Get("X-Large-First") != "" {
+			// an earlier request answered by the same Renderer with a big document of either kind (16 KiB .. 1 MiB)
+			rows := make([]xmlItem, 0, 256)
+			for i := 0; len(rows)*64 < c.LargeFirst; i++ {
+				rows = append(rows, xmlItem{K: fmt.Sprintf("big-row-%06d", i), V: "FROM-AN-EARLIER-BIG-DOCUMENT-0123456789abcdef"})
+			}
+			if req.Header.Get("X-Large-First") == "json" {
+				r.JSON(200, rows)
+			} else {
+				r.XML(200, struct {
+					XMLName struct{} `xml:"big"`
+					Rows    []xmlItem
+				}{Rows: rows})
+			}
+			return
+		}
 		if c.Overlap && req.Header.Get("X-Who") == "b" {
 			r.PlainText(299, "other-request")
 			return
@@ -589,6 +610,14 @@ func judgeRender(w *core.W, c *renderCase) {
 			}()
 			w.Count("earlier-render-failed:" + c.FailFirst)
 		}
+		if c.LargeFirst > 0 {
+			kind := []string{"json", "xml"}[c.LargeFirst%2]
+			big := &retSpy{h: http.Header{}}
+			f.ServeHTTP(big, &http.Request{Method: "GET", URL: &url.URL{Path: target}, Header: http.Header{"X-Large-First": {kind}}})
+			if len(big.body) >= c.LargeFirst/2 {
+				w.Count("earlier-big-document-from-the-same-renderer")
+			}
+		}
 		if c.EditCT {
 			f.ServeHTTP(&retSpy{h: http.Header{}}, &http.Request{Method: meth, URL: &url.URL{Path: target}, Header: http.Header{"X-Prime": {"1"}}})
 			w.Count("earlier-response-edited-its-content-type-in-place")
@@ -699,6 +728,7 @@ func runC17(r *core.Run) {
 	ws.Done()
 	ws.Merge()
 	r.GateCounter("environment-varied", 300)
+	r.GateCounter("earlier-big-document-from-the-same-renderer", 1000)
 	for _, k := range []string{"kind:json", "kind:xml", "kind:binary", "kind:text", "where:app", "where:group", "where:route", "custom-charset", "indented:json", "indented:xml", "overlapping-requests", "content-type-preset", "json-value-implementing-error", "nested-renderers", "options-slice-overwritten-after-creation", "earlier-response-edited-its-content-type-in-place", "json-go-value:nil-slice", "earlier-render-failed:xml-late", "earlier-render-failed:json"} {
 		min := int64(500)
 		if k == "json-go-value:nil-slice" {
